@@ -19,6 +19,11 @@ import Irismod.Proofs.Params
 namespace Irismod.Props.C16
 open Irismod Irismod.Sdk Irismod.Params Irismod.Spec.C16
 
+namespace Proofs
+/-- 2^255 -/
+def p255 : Int := 57896044618658097711785492504343953926634992332820282019728792003956564819968
+end Proofs
+
 /-! ## regenerated handler table -/
 
 theorem handlers_gated_and_validating : allHandlersOk = true := by decide
@@ -198,5 +203,204 @@ theorem stored_params_always_valid (ops : List UpdateOp) : StoreValid (run {} op
     | nil => intro s h; exact h
     | cons op rest ih => intro s h; exact ih (applyOp s op) (applyOp_preserves_valid s op h)
   exact gen ops {} defaults_valid
+
+/-! ## (c) validated parameters never abort the handlers that consume them
+
+### coinswap -/
+
+/-- full statement for pool creation (`DeductPoolCreationFee`) — FALSE of the code -/
+def CoinswapPoolCreationNoAbort : Prop :=
+  ∀ p : CoinswapParams, coinswapValidate p = .ok () →
+    NoAbort (poolCreationFee p.poolCreationFee p.taxRate)
+
+/-- F-par-2: `Params.Validate` checks only the sign of the pool creation fee; with an empty
+    denomination the set is accepted and `sdk.NewCoin` panics in `AddLiquidity` -/
+theorem coinswap_noabort_fails_unvalidated_denom : ¬ CoinswapPoolCreationNoAbort := by
+  intro h
+  have := h { coinswapDefault with poolCreationFee := ⟨"", some 5000⟩ } (by decide) .badDenom
+  exact this (by decide)
+
+/-- F-par-3: a fee amount near 2^256 overflows the 315-bit decimal in `Mul(taxRate)` -/
+theorem coinswap_noabort_fails_extreme_amount :
+    ∃ p : CoinswapParams, coinswapValidate p = .ok () ∧ validDenom p.poolCreationFee.denom = true ∧
+      poolCreationFee p.poolCreationFee p.taxRate = .error (.panic .overflow) :=
+  ⟨{ coinswapDefault with poolCreationFee := ⟨"stake", some (pow2_256i - 1)⟩, taxRate := some ⟨999999999999999999⟩ },
+    by decide, by decide, by decide⟩
+
+/-- the strongest true statement: with a well-formed fee denomination (excludes F-par-2) and a fee
+    amount below 2^255 (excludes F-par-3) pool creation never aborts, and splits the fee exactly -/
+theorem coinswap_pool_creation_noabort_partial (p : CoinswapParams) (hv : coinswapValidate p = .ok ())
+    (hd : validDenom p.poolCreationFee.denom = true)
+    (hb : ∀ a, p.poolCreationFee.amount = some a → a < pow2_255) :
+    ∃ tax burned, poolCreationFee p.poolCreationFee p.taxRate = .ok (tax, burned) ∧
+      (∀ a, p.poolCreationFee.amount = some a → tax + burned = a) ∧ 0 ≤ tax ∧ 0 ≤ burned := by
+  obtain ⟨_, ⟨a, ha, ha0⟩, ⟨tax, htax, ht0, ht1⟩, _⟩ := coinswapValidate_ok hv
+  obtain ⟨t, b, hs, hsum, h1, h2⟩ := feeSplit_ok p.poolCreationFee.denom a tax hd (by omega) (hb a ha)
+    (by omega) (by omega)
+  refine ⟨t, b, ?_, ?_, h1, h2⟩
+  · simp [poolCreationFee, ha, htax, hs]
+  · intro a' ha'; rw [ha] at ha'; cases ha'; exact hsum
+
+/-- for EVERY fee amount: a validated set with a well-formed denomination aborts pool creation at
+    most by overflow (never nil, never a negative coin) -/
+theorem coinswap_pool_creation_only_overflow (p : CoinswapParams) (hv : coinswapValidate p = .ok ())
+    (hd : validDenom p.poolCreationFee.denom = true) :
+    OnlyOverflow (poolCreationFee p.poolCreationFee p.taxRate) := by
+  obtain ⟨_, ⟨a, ha, ha0⟩, ⟨tax, htax, ht0, ht1⟩, _⟩ := coinswapValidate_ok hv
+  intro k h
+  simp only [poolCreationFee, ha, htax] at h
+  exact feeSplit_only_overflow _ a tax hd (by omega) (by omega) (by omega) k h
+
+/-- swaps: under every validated fee, for ALL amounts and reserves, the price functions never
+    divide by zero (the only abort left is the 256-bit overflow of the checked products, which
+    does not depend on the parameters' validity) -/
+theorem coinswap_prices_never_divide_by_zero (p : CoinswapParams) (hv : coinswapValidate p = .ok ())
+    (amt inRes outRes : Int) :
+    (0 ≤ amt → 0 ≤ inRes → (0 < inRes ∨ 0 < amt) → OnlyOverflow (inputPrice amt inRes outRes p.fee)) ∧
+    (amt < outRes → OnlyOverflow (outputPrice amt inRes outRes p.fee)) := by
+  obtain ⟨⟨fee, hfee, hf0, hf1⟩, _⟩ := coinswapValidate_ok hv
+  rw [hfee]
+  exact ⟨fun h1 h2 h3 => inputPrice_only_overflow fee hf0 hf1 amt inRes outRes h1 h2 h3,
+         fun h => outputPrice_only_overflow fee hf0 hf1 amt inRes outRes h⟩
+
+/-! ### farm: the tax-rate check is a regenerated fact -/
+
+/-- full statement for `CreatePool`'s fee, as a function of whether `Params.Validate` calls
+    `validateTaxRate` (and whether that guards an unset decimal) -/
+def FarmNoAbort (checksTax nilGuard : Bool) : Prop :=
+  ∀ (p : FarmParams) (n : Nat), farmValidateWith checksTax nilGuard p = .ok () →
+    (∀ a, p.poolCreationFee.amount = some a → a < pow2_255) → NoAbort (farmCreatePoolFee p n)
+
+theorem farmCreatePoolFee_noabort_of_rate (p : FarmParams) (n : Nat) (r : Dec)
+    (hfee : coinIsValid p.poolCreationFee = true) (hr : p.taxRate = some r)
+    (hr0 : 0 ≤ r.raw) (hr1 : r.raw ≤ precision)
+    (hb : ∀ a, p.poolCreationFee.amount = some a → a < pow2_255) : NoAbort (farmCreatePoolFee p n) := by
+  obtain ⟨hd, a, ha, ha0⟩ := coinIsValid_ok hfee
+  obtain ⟨t, b, hs, _⟩ := feeSplit_ok p.poolCreationFee.denom a r hd ha0 (hb a ha) hr0 hr1
+  intro k
+  unfold farmCreatePoolFee
+  split
+  · simp
+  · simp [poolCreationFee, ha, hr, hs]
+
+/-- with the tax-rate check in place the statement holds … -/
+theorem farm_noabort_when_tax_rate_validated (g : Bool) : FarmNoAbort true g := by
+  intro p n hv hb
+  obtain ⟨hfee, r, hr, hr0, hr1⟩ := farmValidateWith_true_ok hv
+  exact farmCreatePoolFee_noabort_of_rate p n r hfee hr (by omega) (by omega) hb
+
+/-- … and without it, it is false (F-par-1): tax rate 2 is accepted and `CreatePool` panics with
+    "negative coin amount" -/
+theorem farm_noabort_fails_when_tax_rate_unvalidated (g : Bool) : ¬ FarmNoAbort false g := by
+  intro h
+  have := h ⟨⟨"stake", some 5000⟩, some ⟨2000000000000000000⟩, 2⟩ 1 (by cases g <;> decide)
+    (by intro a ha; cases ha; decide) .negCoin
+  exact this (by decide)
+
+/-- the code as it is on this run: if the regenerated fact says the check is there, no abort -/
+theorem farm_noabort_current (h : Gen.Handlers.farmValidatesTaxRate = true) (p : FarmParams) (n : Nat)
+    (hv : farmValidate p = .ok ()) (hb : ∀ a, p.poolCreationFee.amount = some a → a < pow2_255) :
+    NoAbort (farmCreatePoolFee p n) := by
+  unfold farmValidate at hv
+  rw [h] at hv
+  exact farm_noabort_when_tax_rate_validated _ p n hv hb
+
+/-- the strongest statement true of the unfixed code: the excluded class (tax rate unset or
+    outside [0,1]) is an explicit hypothesis -/
+theorem farm_noabort_partial (c g : Bool) (p : FarmParams) (n : Nat) (hv : farmValidateWith c g p = .ok ())
+    (r : Dec) (hr : p.taxRate = some r) (hr0 : 0 ≤ r.raw) (hr1 : r.raw ≤ precision)
+    (hb : ∀ a, p.poolCreationFee.amount = some a → a < pow2_255) : NoAbort (farmCreatePoolFee p n) :=
+  farmCreatePoolFee_noabort_of_rate p n r (farmValidateWith_fee hv) hr hr0 hr1 hb
+
+/-! ### service -/
+
+/-- fee tax, slash and minimum-deposit fragments under every validated set: no abort for amounts
+    below 2^255, and for ALL non-negative amounts at most an overflow -/
+theorem service_fragments_noabort (p : ServiceParams) (hv : serviceValidate p = .ok ()) (x : Int) (h0 : 0 ≤ x) :
+    OnlyOverflow (earnedFeeSplit x p.serviceFeeTax) ∧
+    OnlyOverflow (slashSplit p.baseDenom x p.slashFraction) ∧
+    OnlyOverflow (minDepositBase p x) ∧
+    (x < pow2_255 → NoAbort (earnedFeeSplit x p.serviceFeeTax) ∧
+                     NoAbort (slashSplit p.baseDenom x p.slashFraction)) := by
+  obtain ⟨_, hm, _, ⟨s, hs, hs0, hs1⟩, ⟨t, ht, ht0, ht1⟩, _, _, _, hd⟩ := serviceValidate_ok hv
+  rw [hs, ht]
+  refine ⟨earnedFeeSplit_only_overflow x t h0 ht0 (by omega), slashSplit_only_overflow _ x s hd h0 hs0 hs1,
+    minDepositBase_only_overflow p x hd h0 hm, fun hb => ⟨?_, ?_⟩⟩
+  · exact earnedFeeSplit_noabort x t h0 hb ht0 (by omega)
+  · exact slashSplit_noabort _ x s hd h0 hb hs0 hs1
+
+/-- every request timeout / QoS the default set admits that is ≤ the stored maximum stays
+    admissible: the guard is a plain comparison with a positive bound -/
+theorem service_timeout_window (p : ServiceParams) (hv : serviceValidate p = .ok ()) :
+    timeoutOk p 1 = true := by
+  obtain ⟨h, _⟩ := serviceValidate_ok hv
+  simp [timeoutOk]; omega
+
+/-! ### token -/
+
+def TokenFeePathsNoAbort : Prop :=
+  ∀ (p : TokenParams) (reg : TokenReg) (factor : Dec), tokenValidate p = .ok () → RegOk reg →
+    precision ≤ factor.raw → NoAbort (issueFeePath p reg factor) ∧ NoAbort (mintFeePath p reg factor)
+
+/-- F-par-2: the issue-fee denomination is not validated; `sdk.NewCoin` panics in `IssueToken`,
+    `MintToken` (and the fee ante handler / fee query) -/
+theorem token_noabort_fails_unvalidated_denom : ¬ TokenFeePathsNoAbort := by
+  intro h
+  have := (h { tokenDefault with issueTokenBaseFee := ⟨"", some 60000⟩ } [] ⟨precision⟩ (by decide)
+    (by intro e he; cases he) (by decide)).1 .badDenom
+  exact this (by decide)
+
+/-- F-par-3: a base fee near 2^256 overflows the decimal quotient -/
+theorem token_noabort_fails_extreme_amount :
+    ∃ p : TokenParams, tokenValidate p = .ok () ∧ validDenom p.issueTokenBaseFee.denom = true ∧
+      issueFeePath p batteryReg factor3 = .error (.panic .overflow) :=
+  ⟨{ tokenDefault with issueTokenBaseFee := ⟨"stake", some (pow2_256i - 1)⟩ }, by decide, by decide, by decide⟩
+
+theorem token_fee_paths_noabort_partial (p : TokenParams) (reg : TokenReg) (factor : Dec)
+    (hv : tokenValidate p = .ok ()) (hreg : RegOk reg) (hf : precision ≤ factor.raw)
+    (hd : validDenom p.issueTokenBaseFee.denom = true)
+    (hb : ∀ a, p.issueTokenBaseFee.amount = some a → a < pow2_128) :
+    NoAbort (issueFeePath p reg factor) ∧ NoAbort (mintFeePath p reg factor) := by
+  obtain ⟨⟨t, ht, ht0, ht1⟩, ⟨r, hr, hr0, hr1⟩, ⟨a, ha, ha0⟩⟩ := tokenValidate_ok hv
+  exact ⟨issueFeePath_noabort p reg factor a t ha ha0 (hb a ha) hd hf ht ht0 ht1 hreg,
+         mintFeePath_noabort p reg factor a t r ha ha0 (hb a ha) hd hf ht ht0 ht1 hr hr0 hr1 hreg⟩
+
+/-! ### htlc -/
+
+/-- asset limits and supply counters: under every validated asset, for ALL counters and amounts,
+    the HTLT fragments abort at most by 256-bit overflow … -/
+theorem htlc_fragments_only_overflow (p : HtlcParams) (hv : htlcValidate p = .ok ())
+    (a : AssetParam) (ha : a ∈ p) (s : Supply) (amt : Int) (tl : Nat) :
+    OnlyOverflow (htltIncoming a s amt) ∧ OnlyOverflow (htltOutgoing a s amt tl) ∧
+    OnlyOverflow (htltClaimIncoming a s amt) := by
+  have hok := htlcValidate_ok hv a ha
+  exact ⟨htltIncoming_only_overflow hok s amt, htltOutgoing_only_overflow hok s amt tl,
+         htltClaimIncoming_only_overflow hok s amt⟩
+
+/-- … and not at all while counters, amounts and the fee/min-swap parameters stay below 2^128 -/
+theorem htlc_fragments_noabort_partial (p : HtlcParams) (hv : htlcValidate p = .ok ())
+    (a : AssetParam) (ha : a ∈ p) (s : Supply) (hs : SupplySmall s) (amt : Int)
+    (hamt : 0 ≤ amt ∧ amt < Params.pow2_128) (tl : Nat)
+    (hfee : ∀ f mn, a.fixedFee = some f → a.minSwapAmount = some mn → f < Params.pow2_128 ∧ mn < Params.pow2_128) :
+    NoAbort (htltIncoming a s amt) ∧ NoAbort (htltOutgoing a s amt tl) ∧
+    NoAbort (htltClaimIncoming a s amt) := by
+  have hok := htlcValidate_ok hv a ha
+  exact ⟨htltIncoming_noabort hok hs hamt, htltOutgoing_noabort hok hs hamt tl hfee,
+         htltClaimIncoming_noabort hok hs hamt⟩
+
+/-- F-par-3 for htlc: `FixedFee.Add(MinSwapAmount)` is a sum of two parameters; both 2^255 pass
+    validation and every outgoing HTLT of that asset panics with "integer overflow" -/
+theorem htlc_noabort_fails_extreme_amount :
+    ∃ (a : AssetParam) (amt : Int), htlcValidate [a] = .ok () ∧
+      htltOutgoing a {} amt a.maxBlockLock = .error (.panic .overflow) :=
+  ⟨{ denom := "htltbnb", supplyLimit := ⟨some (pow2_256i - 1), false, 0, some 0⟩, active := true, deputy := "A3",
+     fixedFee := some Proofs.p255, minSwapAmount := some Proofs.p255, maxSwapAmount := some Proofs.p255,
+     minBlockLock := 50, maxBlockLock := 100 }, Proofs.p255, by decide, by decide⟩
+
+/-- time windows: a validated asset always admits a time lock that the message validation admits -/
+theorem htlc_time_window_nonempty (p : HtlcParams) (hv : htlcValidate p = .ok ()) (a : AssetParam) (ha : a ∈ p) :
+    ∃ tl, minTimeLock ≤ tl ∧ tl ≤ maxTimeLock ∧ a.minBlockLock ≤ tl ∧ tl ≤ a.maxBlockLock := by
+  obtain ⟨h1, h2, h3⟩ := (htlcValidate_ok hv a ha).lock
+  exact ⟨a.minBlockLock, h1, by omega, by omega, h2⟩
 
 end Irismod.Props.C16
